@@ -680,14 +680,14 @@ func (st *store) runE2E(j int, subset []int, where bool) (Case, error) {
 			ord = append(ord, st.srcOf(i, false))
 		}
 		cs.Coq = GApp("KQuery", gSrcs(ord), gFlt(flt), "PHead", GZ(0), GNat(10000), "QErr")
-		if len(subset) < 50 {
-			cs.Oracle = &Violation{Class: "c04-limit-error", Detail: fmt.Sprintf("%d partitions match (limit 50) but the query failed: %v", len(subset), r.err)}
+		if len(subset) <= 50 {
+			cs.Oracle = &Violation{Class: "c04-limit-error", Detail: fmt.Sprintf("%d partitions match (the limit, 50, allows them) but the query failed: %v", len(subset), r.err)}
 		}
 		return cs, nil
 	}
 	order := append([]string{}, st.rec.order...)
 	if len(order) != len(subset) {
-		if len(subset) >= 50 {
+		if len(subset) > 50 {
 			cs.Oracle = &Violation{Class: "c04-limit-subset", Detail: fmt.Sprintf("%d partitions match, the query read %d of them without an error", len(subset), len(order))}
 		} else {
 			return cs, fmt.Errorf("query %s: %d sources opened, %d match", q, len(order), len(subset))
@@ -723,7 +723,7 @@ func (st *store) runE2E(j int, subset []int, where bool) (Case, error) {
 		ps = append(ps, GPair(GNat(st.byJrnl[jn]), gZZ(uint64(jp.CId), jp.Idx)))
 	}
 	cs.Coq = GApp("KQuery", gSrcs(ord), gFlt(flt), "PHead", GZ(0), GNat(10000), GApp("QOk", gItems(out), GList(ps)))
-	if cs.Oracle == nil && len(subset) >= 50 {
+	if cs.Oracle == nil && len(subset) > 50 {
 		cs.Oracle = &Violation{Class: "c04-limit-subset", Detail: fmt.Sprintf("%d partitions match (limit 50), no error", len(subset))}
 	}
 	if cs.Oracle == nil {
@@ -941,7 +941,7 @@ func run(c *Ctx) error {
 				results[i].cases = append(results[i].cases, cs)
 			}
 			// the same read while the journal of one matching partition cannot be opened
-			if len(sub) >= 2 && len(sub) < 50 && r.Chance(1, 2) && !st.poisoned {
+			if len(sub) >= 2 && len(sub) <= 50 && r.Chance(1, 2) && !st.poisoned {
 				failed := sub[r.Intn(len(sub))]
 				if st.lay[failed].Jrnl == "" {
 					continue
